@@ -415,4 +415,168 @@ theorem acceptRequest_step {s s' : Srv.State} {now id : Nat} {r : Except Err (Li
                     simp only [Except.ok.injEq] at hr; rw [← hr]
                     exact em_cons st1.1 (em_cons st2.1 (em_cons st3.1 (em_cons st4.1 st5.1)))⟩
 
+/-- application calls on an established session -/
+inductive Op where
+  | input (now : Nat) (bytes : Bytes)
+  | accept (now id : Nat)
+  | reject (now id : Nat) (code desc : Bytes)
+  | media (video : Bool) (sid : Nat) (data : Bytes) (ts : Nat) (drop : Bool)
+  | metadata (now sid : Nat) (m : Metadata)
+  | ping (now : Nat)
+  | finish (now sid : Nat)
+
+/-- what the Rust types guarantee about the arguments (u32 stream ids and timestamps) -/
+def Op.WF : Op → Prop
+  | .media _ sid _ ts _ => sid < 4294967296 ∧ ts < 4294967296
+  | .metadata _ sid _ => sid < 4294967296
+  | .finish _ sid => sid < 4294967296
+  | _ => True
+
+def pk (x : Srv.State × Except Err Ser.Packet) : Srv.State × Except Err (List Srv.Res) :=
+  (x.1, match x.2 with
+        | .ok p => .ok [.out p]
+        | .error e => .error e)
+
+def apply (s : Srv.State) : Op → Srv.State × Except Err (List Srv.Res)
+  | .input now bytes => Srv.handleInput s now bytes
+  | .accept now id => Srv.acceptRequest s now id
+  | .reject now id code desc => Srv.rejectRequest s now id code desc
+  | .media v sid d ts drop => pk (Srv.sendMedia s v sid d ts drop)
+  | .metadata now sid m => pk (Srv.sendMetadata s now sid m)
+  | .ping now =>
+    let x := Srv.sendPing s now
+    (x.1, match x.2 with
+          | .ok (p, _) => .ok [.out p]
+          | .error e => .error e)
+  | .finish now sid => pk (Srv.finishPlaying s now sid)
+
+theorem apply_step {s s' : Srv.State} {op : Op} {r : Except Err (List Srv.Res)} (hi : Inv s) (hw : op.WF)
+    (h : apply s op = (s', r)) : Inv s' ∧ (∀ rs, r = .ok rs → Em s s' rs) := by
+  have z : (0 : Nat) < 4294967296 := by omega
+  cases op with
+  | input now bytes => exact handleInput_step hi h
+  | accept now id => exact acceptRequest_step hi h
+  | reject now id code desc => exact rejectRequest_step hi h
+  | media v sid d ts drop =>
+    simp only [apply, pk, Srv.sendMedia] at h
+    split at h
+    · simp only [Prod.mk.injEq] at h; rw [← h.1, ← h.2]; exact ⟨hi, fun rs hr => by cases hr⟩
+    · rename_i s2 p hs
+      simp only [Prod.mk.injEq] at h; rw [← h.1, ← h.2]
+      have hst := step_send hs (by cases v <;> exact trivial) hw.2 hw.1
+      exact ⟨hst.2 hi, fun rs hr => by simp only [Except.ok.injEq] at hr; rw [← hr]; exact hst.1⟩
+  | metadata now sid m =>
+    simp only [apply, pk, Srv.sendMetadata] at h
+    split at h
+    · simp only [Prod.mk.injEq] at h; rw [← h.1, ← h.2]; exact ⟨hi, fun rs hr => by cases hr⟩
+    · rename_i s2 p hs
+      simp only [Prod.mk.injEq] at h; rw [← h.1, ← h.2]
+      have hst := step_send hs trivial (epoch_lt now) hw
+      exact ⟨hst.2 hi, fun rs hr => by simp only [Except.ok.injEq] at hr; rw [← hr]; exact hst.1⟩
+  | ping now =>
+    simp only [apply, Srv.sendPing] at h
+    split at h
+    · simp only [Prod.mk.injEq] at h; rw [← h.1, ← h.2]; exact ⟨hi, fun rs hr => by cases hr⟩
+    · rename_i s2 p hs
+      simp only [Prod.mk.injEq] at h; rw [← h.1, ← h.2]
+      have hst := step_send hs trivial (epoch_lt now) z
+      exact ⟨hst.2 hi, fun rs hr => by simp only [Except.ok.injEq] at hr; rw [← hr]; exact hst.1⟩
+  | finish now sid =>
+    simp only [apply, pk, Srv.finishPlaying] at h
+    split at h
+    · split at h
+      · simp only [Prod.mk.injEq] at h; rw [← h.1, ← h.2]
+        exact ⟨inv_frame rfl rfl hi, fun rs hr => by cases hr⟩
+      · rename_i s2 p hs
+        simp only [Prod.mk.injEq] at h; rw [← h.1, ← h.2]
+        have hst := step_send hs trivial (epoch_lt now) hw
+        exact ⟨hst.2 (inv_frame rfl rfl hi), fun rs hr => by simp only [Except.ok.injEq] at hr; rw [← hr]; exact hst.1⟩
+    · simp only [Prod.mk.injEq] at h; rw [← h.1, ← h.2]; exact ⟨hi, fun rs hr => by cases hr⟩
+
+/-- a history of calls: final state and everything returned by the calls that succeeded, in order -/
+def run (s : Srv.State) : List Op → Srv.State × List Srv.Res
+  | [] => (s, [])
+  | op :: rest =>
+    let x := apply s op
+    let y := run x.1 rest
+    (y.1, (match x.2 with
+           | .ok rs => rs
+           | .error _ => []) ++ y.2)
+
+/-- the hypothesis that excludes known finding K2: a call that returned an error had not yet handed a
+    message to the serializer (so no returned-nowhere packet shifted the compression state) -/
+def ErrKeepsSer (s : Srv.State) : List Op → Prop
+  | [] => True
+  | op :: rest =>
+    (match (apply s op).2 with
+     | .error _ => (apply s op).1.ser = s.ser
+     | .ok _ => True) ∧ ErrKeepsSer (apply s op).1 rest
+
+theorem run_step : ∀ (ops : List Op) (s : Srv.State), Inv s → (∀ op ∈ ops, op.WF) → ErrKeepsSer s ops →
+    Em s (run s ops).1 (run s ops).2 ∧ Inv (run s ops).1 := by
+  intro ops
+  induction ops with
+  | nil => intro s hi _ _; exact ⟨em_same rfl rfl, hi⟩
+  | cons op rest ih =>
+    intro s hi hw hk
+    obtain ⟨hk1, hk2⟩ := hk
+    obtain ⟨hi1, hem⟩ := apply_step (op := op) hi (hw op (List.mem_cons_self ..)) (rfl : apply s op = ((apply s op).1, (apply s op).2))
+    obtain ⟨hr, hir⟩ := ih (apply s op).1 hi1 (fun o ho => hw o (List.mem_cons_of_mem _ ho)) hk2
+    simp only [run]
+    refine ⟨?_, hir⟩
+    cases hx : (apply s op).2 with
+    | ok rs =>
+      simp only
+      exact em_trans (hem rs hx) hr
+    | error e =>
+      simp only [hx] at hk1
+      simp only [List.nil_append]
+      obtain ⟨xs, e1, e2, e3⟩ := hr
+      exact ⟨xs, by rw [← hk1]; exact e1, e2, e3⟩
+
+/-- `ServerSession::new`: the chunk-size announcement through the serializer's setter, then the greeting -/
+theorem new_emits {c : Srv.Config} {now : Nat} {s0 : Srv.State} {rs0 : List Srv.Res}
+    (h : Srv.new c now = .ok (s0, rs0)) :
+    ∃ xs, Emits {} s0.ser xs ∧ xs.map (·.1) = outs rs0 ∧ Inv s0 := by
+  have z : (0 : Nat) < 4294967296 := by omega
+  unfold Srv.new at h
+  simp only at h
+  cases hcs : Ser.setMaxChunkSize ({ fmsVersion := c.fmsVersion } : Srv.State).ser c.chunkSize 0 with
+  | err e => simp [hcs] at h
+  | hang => simp [hcs] at h
+  | ok q =>
+    obtain ⟨ser1, p1⟩ := q
+    simp only [hcs] at h
+    have e1 := Emits.setcs hcs z
+    have hinv1 : Inv { ({ fmsVersion := c.fmsVersion } : Srv.State) with ser := ser1 } :=
+      ⟨Des.coreOK_init, fun id r hh => by simp [mapGet] at hh⟩
+    split at h
+    · simp at h
+    · rename_i s2 p2 hs2
+      have st2 := step_send hs2 trivial (epoch_lt now) z
+      split at h
+      · simp at h
+      · rename_i s3 p3 hs3
+        have st3 := step_send hs3 trivial (epoch_lt now) z
+        split at h
+        · simp at h
+        · rename_i s4 p4 hs4
+          have st4 := step_send hs4 trivial (epoch_lt now) z
+          have em234 := em_cons st2.1 (em_cons st3.1 st4.1)
+          split at h
+          · split at h
+            · simp at h
+            · rename_i s5 p5 hs5
+              have st5 := step_send hs5 trivial (epoch_lt now) z
+              simp only [Except.ok.injEq, Prod.mk.injEq] at h
+              rw [← h.1, ← h.2]
+              obtain ⟨xs, ex, mx, _⟩ := em_trans em234 st5.1
+              refine ⟨_ :: xs, Emits.trans e1 ex, ?_, st5.2 (st4.2 (st3.2 (st2.2 hinv1)))⟩
+              simp only [List.map_cons, mx]; rfl
+          · simp only [Except.ok.injEq, Prod.mk.injEq] at h
+            rw [← h.1, ← h.2]
+            obtain ⟨xs, ex, mx, _⟩ := em234
+            refine ⟨_ :: xs, Emits.trans e1 ex, ?_, st4.2 (st3.2 (st2.2 hinv1))⟩
+            simp only [List.map_cons, mx]; rfl
+
 end Rml.SrvEmit
